@@ -219,13 +219,17 @@ def main(tier, seed):
     from standins import level2
 
     rep = Report(PID, tier, seed, "proof")
-    rep.assumed_contract("core field functions are linear in their excitation argument (ASSUMED for the stubs: magnet_cuboid_Bfield, "
-                         "triangle_Bfield, dipole_Hfield, current_circle_Hfield, current_polyline_Hfield)")
+    rep.assumed_contract("core field functions are linear in their excitation argument: PROVED here (linearity typing of the real code's term) for magnet_cuboid_Bfield, "
+                         "triangle_Bfield, dipole_Hfield; ASSUMED for current_circle_Hfield, current_polyline_Hfield")
     rep.assume("Cylinder / CylinderSegment / TriangularMesh linearity: numeric stand-in only (polarization re-parametrised through "
                "arctan2/sqrt before the core; mesh wrapper outside the row-generic subset)")
     rep.assume("sumup = np.sum(axis=0) by NumPy's contract; collection reduction loop: bounded term-exact stand-in")
     rep.explanation = "additivity + oddness of 7 wrappers (z3, linear arithmetic) ; reductions over sources/collections bounded term-exact"
-    fails = run_parallel(rep, [(nm, (lambda r, nm=nm: linearity(r, nm))) for nm in EXC])
+    from checks import c06_cores
+    from contracts.bhjm import CORES
+
+    fails = run_parallel(rep, [(nm, (lambda r, nm=nm: linearity(r, nm))) for nm in EXC] +
+                         [(f"core.{cn}", (lambda r, cn=cn: c06_cores.linearity(r, cn))) for cn in CORES])
     bad = native_linearity(seed)
     rep.standin("numeric linearity in the excitation for every class (incl. Cylinder, CylinderSegment, TriangularMesh)", "10 classes x 3 excitation patterns x B,H",
                 60, 60, "random excitations incl. cancelling and axis-aligned ones", [dict(cls="Cylinder", pattern="e2=-e1+(0,0,.5)")], failures=len(bad))
